@@ -12,9 +12,31 @@ Data-race freedom itself is a property of the Go memory model: the logic part is
 argument over the access footprint (`race_free_partial`, with the listed finding
 `finding_infoschema_assign_catalog_race`), the race-detector runs of the harness validate the
 footprint — see DESIGN.md §6 C36.
+
+The store is not opaque any more for the statements of the idx stream: `Gms.SharedStore` models the
+physical storage every session reads (stored partition + secondary-index storage pointing at
+positions) and the access paths of the memory backend over it. Proved: on consistent storage every
+access path returns the statement's meaning on the logical table (`impl_eq_spec`), a statement run
+after ANY history of statements of any sessions finds the storage as it was and returns that
+meaning (`readonly_history_independent`), hence in every complete schedule every session receives
+the Spec results (`pq_concurrent_eq_spec`); and for the defect class "a read path writes into the
+storage it was handed" (`execAlias`: the iterator walks the stored slice, so the sort of a
+primary-key lookup lands in it): results become history dependent and the secondary index points
+at the wrong rows (`alias_reverse_scan_breaks_lookup`, `alias_history_dependent`,
+`alias_desc_changes_storage`), an ascending lookup repairs it (`alias_asc_repairs`).
+
+Snapshots of the shared process list (`Gms.ProcSnap`, partition-progress maps on a heap because a Go
+map in a struct is a reference): a `Processes()` snapshot that copies every map is a value — no
+sequence of registry writes changes what its reader sees (`snapshot_is_value`); a snapshot that
+keeps the reference of an empty map is changed by the next `AddPartitionProgress`
+(`shared_empty_snapshot_changes`, the class of seeded change C36-1).
 -/
 import Gms.Model.NonInterf
 import Gms.Lemmas.NonInterf
+import Gms.Model.SharedStore
+import Gms.Lemmas.SharedStore
+import Gms.Model.ProcSnap
+import Gms.Lemmas.ProcSnap
 import Gms.Generated.C36
 
 namespace Gms.C36
@@ -155,6 +177,208 @@ theorem fair_schedule_finishes (n : Nat) (progs : Nat → List (Stmt Db)) (db : 
   rw [(readonly_noninterference n progs db evs).2 i hi, solo_eq_lsteps]
   have := lsteps_enough db (progs i) (occ i evs) (hfair i hi)
   exact ⟨this.2, this.1⟩
+
+/-! ### the storage all sessions share (idx stream) -/
+
+section SharedStore
+open Gms.SharedStore
+
+/-- Facts about the storage side, re-read / re-measured on every run: `Table.PartitionRows` gives
+the partition iterator a copy of the stored partition (`make` + `copy`, and the iterator walks that
+copy), `IndexedTable.PartitionRows` stably sorts the iterator's slice in place, no partition
+iterator of the freshly compiled code starts at the address of the stored partition, the statement
+kinds of the idx stream are planned onto the access paths `Gms.SharedStore.implEval` describes
+(primary-key index forwards / reverse, secondary index forwards / reverse, table scan);
+`ProcessList.Processes` makes every map of a snapshot, and no snapshot taken in any registry shape
+changes when the registry is written afterwards. -/
+theorem facts_store :
+    Gms.Generated.C36.partitionRowsCopyStmts = ["rowsCopy := make([]sql.Row, len(rows))", "copy(rowsCopy, rows)"] ∧
+    Gms.Generated.C36.tableIterRows = "rowsCopy" ∧
+    Gms.Generated.C36.indexedTableSortCalls = ["sort.Stable"] ∧
+    Gms.Generated.C36.indexedTableSortedSlices = ["ti.rows", "sti.rows"] ∧
+    Gms.Generated.C36.scanIteratorsAliasingStorage = [] ∧
+    Gms.Generated.C36.idxPlans =
+      [("pkr-desc", "IndexedTableAccess [p.pk] reverse"), ("pkr-desc-all", "IndexedTableAccess [p.pk] reverse"),
+       ("pkr-asc", "IndexedTableAccess [p.pk]"), ("pkr-eq", "IndexedTableAccess [p.pk]"),
+       ("seq", "IndexedTableAccess [p.v]"), ("srows", "IndexedTableAccess [p.v]"),
+       ("srng-asc", "IndexedTableAccess [p.v]"), ("srng-desc", "IndexedTableAccess [p.v] reverse"), ("scan", "Table")] ∧
+    Gms.Generated.C36.processesMapDefs =
+      ["progMap = make(map[string]sql.TableProgress, len(p.Progress))",
+       "newProg := sql.TableProgress{ Progress: prog.Progress, PartitionsProgress: make(map[string]sql.PartitionProgress, len(prog.PartitionsProgress)), }",
+       "p.Progress = progMap"] ∧
+    Gms.Generated.C36.processesSnapshotLeaks = [] := by
+  refine ⟨by decide, by decide, by decide, by decide, by decide, by decide, ?_, by decide⟩
+  set_option maxRecDepth 8000 in decide
+
+/-- **Impl = Spec on consistent storage** (every access path, every statement). -/
+theorem impl_eq_spec (ph : Phys) (hc : Consistent ph) (q : Q) : implEval ph q = specEval (logical ph) q :=
+  Gms.SharedStore.impl_eq_spec ph hc q
+
+/-- **Read-only statements leave the shared storage bit-identical, so results do not depend on the
+history.** Whatever statements (of whatever sessions) ran before, in whatever order: the storage is
+what it was, and every statement returned its meaning on the logical table. -/
+theorem readonly_history_independent (ph : Phys) (hc : Consistent ph) (qs : List Q) :
+    (runWith execCopy ph qs).2 = ph ∧ (runWith execCopy ph qs).1 = qs.map (specEval (logical ph)) := by
+  rw [runWith_copy]
+  exact ⟨rfl, List.map_congr_left (fun q _ => Gms.SharedStore.impl_eq_spec ph hc q)⟩
+
+theorem consistent_empty : Consistent emptyPhys := by decide
+
+theorem tbl_consistent (db : Store) (hdb : ∀ ph ∈ db, Consistent ph) (t : Nat) : Consistent (tbl db t) := by
+  unfold tbl
+  rw [List.getD_eq_getElem?_getD]
+  cases h : db[t]? with
+  | none => exact consistent_empty
+  | some ph => exact hdb ph (List.mem_of_getElem? h)
+
+/-- What a statement of the idx stream reads through the access paths is its meaning on the
+logical table. -/
+theorem pq_impl_eq_spec (db : Store) (hdb : ∀ ph ∈ db, Consistent ph) (t : Nat) (q : Q) :
+    pqImpl t q db = pqSpec t q db := by
+  unfold pqImpl pqSpec
+  rw [Gms.SharedStore.impl_eq_spec _ (tbl_consistent db hdb t)]
+
+/-- A statement of a batch of the idx stream: a query over the shared storage, or any other
+statement of the interleaving model. -/
+inductive PStmt where
+  | pq (t : Nat) (q : Q) (sel : Bool) (warn : Option Nat)
+  | other (st : Stmt Store)
+
+/-- As the Impl model executes it: through the access paths. -/
+def PStmt.impl : PStmt → Stmt Store
+  | .pq t q sel warn => .read (pqImpl t q) sel warn
+  | .other st => st
+
+/-- As the Spec reads it: the meaning on the logical table. -/
+def PStmt.spec : PStmt → Stmt Store
+  | .pq t q sel warn => .read (pqSpec t q) sel warn
+  | .other st => st
+
+theorem sem_impl_eq_spec (db : Store) (hdb : ∀ ph ∈ db, Consistent ph) (p : PStmt) (l : Local) :
+    sem p.impl db l = sem p.spec db l := by
+  cases p with
+  | pq t q sel warn => simp [PStmt.impl, PStmt.spec, sem, Stmt.isSelect, pq_impl_eq_spec db hdb]
+  | other st => rfl
+
+theorem seqRun_impl_eq_spec (db : Store) (hdb : ∀ ph ∈ db, Consistent ph) (ps : List PStmt) (l : Local) :
+    seqRun db (ps.map PStmt.impl) l = seqRun db (ps.map PStmt.spec) l := by
+  induction ps generalizing l with
+  | nil => rfl
+  | cons p ps ih => simp only [List.map_cons, seqRun, sem_impl_eq_spec db hdb, ih]
+
+/-- **Concurrent sessions over the shared storage receive the Spec results.** In every complete
+schedule of any number of sessions whose statements read consistent storage through the access
+paths, every session has received exactly what its program means, statement by statement, on the
+logical tables — and the storage is what it was. -/
+theorem pq_concurrent_eq_spec (n : Nat) (progs : Nat → List PStmt) (db : Store) (hdb : ∀ ph ∈ db, Consistent ph)
+    (evs : List Nat)
+    (hfin : finished n (fun i => (progs i).map PStmt.impl) (run n (fun i => (progs i).map PStmt.impl) db evs)) :
+    (run n (fun i => (progs i).map PStmt.impl) db evs).db = db ∧
+    ∀ i, i < n →
+      ((run n (fun i => (progs i).map PStmt.impl) db evs).sess i).results.reverse =
+        (seqRun db ((progs i).map PStmt.spec) initLocal).1 := by
+  refine ⟨(readonly_noninterference n _ db evs).1, ?_⟩
+  intro i hi
+  rw [((concurrent_eq_sequential n _ db evs hfin).1 i hi).1, seqRun_impl_eq_spec db hdb]
+
+/-! #### the defect class: a read path that writes into the storage it was handed -/
+
+/-- Four rows, two of them with the same indexed value; consistent. -/
+def exPh : Phys :=
+  { rows := [⟨1, some 10⟩, ⟨2, some 20⟩, ⟨3, some 30⟩, ⟨4, some 10⟩],
+    sec := [⟨some 10, 1, 0⟩, ⟨some 10, 4, 3⟩, ⟨some 20, 2, 1⟩, ⟨some 30, 3, 2⟩] }
+
+example : Consistent exPh := by decide
+
+/-- Non-vacuity of `impl_eq_spec` / `readonly_history_independent`: a reverse primary-key scan, a
+secondary-index lookup and a reverse secondary-index scan on `exPh`. -/
+example :
+    (runWith execCopy exPh [.pkr (some 2) none true none, .srows 20 20, .srng (some 0) (some 20) true]).1 =
+      [[[some 4, some 10], [some 3, some 30], [some 2, some 20]], [[some 2, some 20]], [[some 20], [some 10], [some 10]]] := by
+  decide
+
+/-- **Witness for the class** (what the seeded change C36-2 does): when the partition iterator
+walks the stored slice, a reverse primary-key lookup returns the right rows itself and leaves the
+same LOGICAL table behind, but the storage is no longer consistent — the secondary-index entries
+point at positions that now hold other rows — and the secondary-index lookup `v = 20` of any session
+returns the row `(3, 30)`. -/
+theorem alias_reverse_scan_breaks_lookup :
+    Consistent exPh ∧
+    (execAlias exPh (.pkr (some 2) none true none)).1 = specEval (logical exPh) (.pkr (some 2) none true none) ∧
+    logical (execAlias exPh (.pkr (some 2) none true none)).2 = logical exPh ∧
+    ¬ Consistent (execAlias exPh (.pkr (some 2) none true none)).2 ∧
+    implEval (execAlias exPh (.pkr (some 2) none true none)).2 (.srows 20 20) = [[some 3, some 30]] ∧
+    specEval (logical (execAlias exPh (.pkr (some 2) none true none)).2) (.srows 20 20) = [[some 2, some 20]] := by
+  decide
+
+/-- Results become history dependent under the class: the same two statements, in the two orders. -/
+theorem alias_history_dependent :
+    (runWith execAlias exPh [.srows 20 20, .pkr none none true none]).1 =
+      [.srows 20 20, .pkr none none true none].map (specEval (logical exPh)) ∧
+    (runWith execAlias exPh [.pkr none none true none, .srows 20 20]).1 ≠
+      [.pkr none none true none, .srows 20 20].map (specEval (logical exPh)) := by
+  decide
+
+/-- Under the class EVERY reverse primary-key lookup on a table of at least two rows changes the
+storage (whatever its range and limit): a read-only statement that writes. -/
+theorem alias_desc_changes_storage (ph : Phys) (hc : Consistent ph) (h2 : 2 ≤ ph.rows.length)
+    (lo hi : Option Int) (lim : Option Nat) : (execAlias ph (.pkr lo hi true lim)).2 ≠ ph := by
+  intro h
+  have hr : ph.rows.reverse = ph.rows := by
+    have := congrArg Phys.rows h
+    simp only [execAlias, if_true] at this
+    rwa [sortBy_pkGe_of_strict hc.1] at this
+  exact reverse_ne_of_strict hc.1 h2 hr
+
+/-- … and the next ascending primary-key lookup puts it back: the damage exists only between a
+reverse scan and the next forward primary-key access, i.e. it depends on the schedule. -/
+theorem alias_asc_repairs (ph : Phys) (hc : Consistent ph) (lo hi lo' hi' : Option Int) (lim lim' : Option Nat) :
+    (execAlias (execAlias ph (.pkr lo hi true lim)).2 (.pkr lo' hi' false lim')).2 = ph :=
+  Gms.SharedStore.alias_asc_repairs ph hc lo hi lo' hi' lim lim'
+
+end SharedStore
+
+/-! ### snapshots of the process list -/
+
+section ProcSnap
+open Gms.ProcSnap
+
+/-- **A `Processes()` snapshot is a value.** Taken in any well-formed registry state (every
+history of registry writes from the empty registry is one: `histories_wf`), it shows the state of
+that moment, and no sequence of later registry writes — partitions opened, advanced, closed, tables
+added or removed — changes what a reader of the snapshot sees. -/
+theorem snapshot_is_value (r : Reg) (hwf : WF r) (ops : List Op) :
+    view (snapDeep r).1.cells (snapDeep r).2 = view r.cells ⟨r.tables⟩ ∧
+    view (applyAll (snapDeep r).1 ops).cells (snapDeep r).2 = view r.cells ⟨r.tables⟩ :=
+  ⟨deep_snapshot_stable r hwf [], deep_snapshot_stable r hwf ops⟩
+
+theorem histories_wf (ops : List Op) : WF (applyAll Gms.ProcSnap.empty ops) :=
+  wf_applyAll _ ops (by intro t ht; cases ht)
+
+/-- The registry of a statement that is analysed and registered, no partition in flight. -/
+def exReg : Reg := applyAll Gms.ProcSnap.empty [.addTable "t"]
+
+/-- Non-vacuity of `snapshot_is_value`, in the registry shape the class needs: the snapshot of
+`exReg` still shows no partition after the statement opened, advanced and closed partitions. -/
+example :
+    view (applyAll (snapDeep exReg).1 [.addPart "t" "0", .updPart "t" "0" 3, .updTable "t" 1, .removePart "t" "0", .addPart "t" "1"]).cells
+      (snapDeep exReg).2 = [("t", 0, [])] ∧
+    view (applyAll (snapDeep exReg).1 [.addPart "t" "0", .updPart "t" "0" 3, .updTable "t" 1]).cells
+      ⟨(applyAll (snapDeep exReg).1 [.addPart "t" "0", .updPart "t" "0" 3, .updTable "t" 1]).tables⟩ = [("t", 1, [("0", 3)])] := by
+  decide
+
+/-- **Witness for the class** (what the seeded change C36-1 does): a snapshot that keeps the
+reference of an EMPTY partition map shows no partition when it is taken and a partition in flight
+after the statement moved on — it changed after it was taken. With a partition in flight at the
+moment of the snapshot the same code copies, and the snapshot is stable. -/
+theorem shared_empty_snapshot_changes :
+    view (snapShareEmpty exReg).1.cells (snapShareEmpty exReg).2 = [("t", 0, [])] ∧
+    view (applyAll (snapShareEmpty exReg).1 [.addPart "t" "0"]).cells (snapShareEmpty exReg).2 = [("t", 0, [("0", 0)])] ∧
+    view (applyAll (snapShareEmpty (applyAll exReg [.addPart "t" "0"])).1 [.updPart "t" "0" 5]).cells
+      (snapShareEmpty (applyAll exReg [.addPart "t" "0"])).2 = [("t", 0, [("0", 0)])] := by
+  decide
+
+end ProcSnap
 
 /-! ### data races: the lockset argument over the footprint -/
 
